@@ -108,7 +108,7 @@ def rule_V1(ctx: Ctx) -> None:
         seen_layers.add(layer)
         ctx.judge(f, ok, {"statement": X.U(a), "layer": layer, "shifted_axis": shifted_axis}, exp + "; the incoming edge of layer d arrives along axis d",
                   "west/north degree contributions are taken from the wrong layer or shifted along the wrong axis", node=a)
-    base = [n for n in ast.walk(f.node) if isinstance(n, ast.Call) and dotted_of(n.func) in ("np.sum", "numpy.sum") and N.const_int(N.kwarg(n, "axis")) == 0]
+    base = [n for n in ast.walk(f.node) if X.np_method(n, "sum") and N.const_int(N.kwarg(n, "axis")) == 0]
     ctx.judge(f, seen_layers == {0, 1} and len(augs) == 2 and len(base) == 1, {"layers_accumulated": sorted(x for x in seen_layers if x is not None), "outgoing_sum": X.U(base[0]) if base else None},
               "degrees = outgoing edges (sum over layers) + one shifted accumulation per layer")
     # 3. connection_list_to_adj_list
@@ -249,10 +249,10 @@ def rule_V3(ctx: Ctx) -> None:
     if len(b) == 1:
         t = b[0].test
         inner = t.operand if isinstance(t, ast.UnaryOp) and isinstance(t.op, ast.Not) else None
-        if inner is not None and isinstance(inner, ast.Call) and dotted_of(inner.func) in ("np.all", "numpy.all") and isinstance(inner.args[0], ast.BinOp) \
-                and isinstance(inner.args[0].op, ast.BitAnd):
+        red = X.np_method(inner, "all")
+        if red is not None and not N.kwarg(red[1], "axis") and isinstance(red[0], ast.BinOp) and isinstance(red[0].op, ast.BitAnd):
             atoms = set()
-            for side in (inner.args[0].left, inner.args[0].right):
+            for side in (red[0].left, red[0].right):
                 if isinstance(side, ast.Compare) and len(side.ops) == 1:
                     atoms.add(N.compare_atom(side.left, side.ops[0], side.comparators[0]).key())
             want = {N.compare_atom(ast.Constant(0), ast.LtE(), X.expr_of(p)).key(), N.compare_atom(X.expr_of(p), ast.Lt(), X.expr_of("self.grid_shape")).key()}
@@ -260,18 +260,26 @@ def rule_V3(ctx: Ctx) -> None:
         else:
             ok_b = False
         slot["bounds_test"] = X.U(t)
-    # consecutive pairs
-    loops = [n for n in body if isinstance(n, ast.For)]
-    ok_l = None
-    if len(loops) == 1:
-        lp = loops[0]
-        i = X.U(lp.target)
-        rng = isinstance(lp.iter, ast.Call) and dotted_of(lp.iter.func) == "range" and len(lp.iter.args) == 1 and N.aff_eq(X.substitute_len(lp.iter.args[0]), X.expr_of(f"len({p}) - 1"))
-        chk = [n for n in lp.body if isinstance(n, ast.If) and X.U(n.test) in (f"not self.nodes_connected({p}[{i}], {p}[{i} + 1])",)]
-        ok_l = rng and len(chk) == 1 and any(isinstance(s, ast.Return) and isinstance(s.value, ast.Constant) and s.value.value is False for s in chk[0].body)
-        slot["pair_loop"] = X.U(lp.iter)
+    # consecutive pairs (normalised shape: `return all(self.nodes_connected(p[i], p[i + 1]) for i in range(len(p) - 1))`)
     last = body[-1] if body else None
-    ok_t = isinstance(last, ast.Return) and isinstance(last.value, ast.Constant) and last.value.value is True
+    ok_l = None
+    ok_t = False
+    if isinstance(last, ast.Return) and isinstance(last.value, ast.Call) and dotted_of(last.value.func) == "all" and len(last.value.args) == 1 \
+            and isinstance(last.value.args[0], (ast.GeneratorExp, ast.ListComp)) and len(last.value.args[0].generators) == 1:
+        g = last.value.args[0].generators[0]
+        i = X.U(g.target)
+        rng = isinstance(g.iter, ast.Call) and dotted_of(g.iter.func) == "range" and len(g.iter.args) == 1 and N.aff_eq(X.substitute_len(g.iter.args[0]), X.expr_of(f"len({p}) - 1")) \
+            and not g.ifs
+        elt = last.value.args[0].elt
+        pair = isinstance(elt, ast.Call) and X.U(elt.func) == "self.nodes_connected" and len(elt.args) == 2 and not elt.keywords \
+            and all(isinstance(a, ast.Subscript) and X.U(a.value) == p for a in elt.args) \
+            and N.aff_eq(elt.args[0].slice, X.expr_of(i)) and N.aff_eq(elt.args[1].slice, X.expr_of(f"{i} + 1"))
+        ok_l = bool(rng and pair)
+        ok_t = True
+        slot["pair_test"] = X.U(last.value)
+    elif [n for n in body if isinstance(n, ast.For)]:
+        ok_l = False
+        slot["pair_test"] = "loop of an unfamiliar shape"
     full = None if (ok_b is None or ok_l is None) else (ok_e and ok_b and ok_l and ok_t)
     ctx.judge(f, full, {**slot, "emptiness_check": ok_e, "final_true": ok_t},
               "is_valid_path: empty -> empty_is_valid; any coordinate outside [0, grid_shape) -> False; every consecutive pair must be connected; else True",
